@@ -42,7 +42,8 @@ class RepeaterStorage:
         Returns:
 
         """
-        if len(patch):
+        # nothing found (lookup without auto_create), nothing to patch
+        if rpt is not None and len(patch):
             self.__repeaters.update({rpt.id: rpt.patch(patch=patch)})
         return rpt
 
